@@ -489,6 +489,12 @@ class Check:
               'coverage': cov, 'assumptions': self.assumptions, 'wall_s': round(time.time() - self.t0, 2),
               'violations': len(self.violations)}
         p = os.path.join(VERIF, 'evidence', f'{self.prop}.json')
+        if os.path.realpath(REPO) != os.path.realpath('/repo'):
+            # a run against a private copy (sensitivity / seeded-change experiment) must not
+            # overwrite the evidence of the real tree
+            d = os.path.join(VERIF, '.work', 'evidence_other_tree')
+            os.makedirs(d, exist_ok=True)
+            p = os.path.join(d, f'{self.prop}.json')
         tmp = p + f'.tmp{os.getpid()}'
         with open(tmp, 'w') as f:
             json.dump(ev, f, indent=1, default=str)
